@@ -1,4 +1,5 @@
 import EmsModel.Lemmas.Clip
+import EmsModel.Lemmas.ClipCompose
 /-!
 # C08 — clipping keeps every selected value and blanks everything else
 
@@ -188,6 +189,70 @@ theorem nothing_outside_survives [Inhabited α] (a : NArr (Option α)) (mask : N
   cases b with
   | true => rfl
   | false => simp at hx
+
+
+/-! ### end to end on a grid: what `clip(geometry, buffer)` leaves in a variable
+
+C08's theorems above take the mask as given; C07's `grid_mask_spec` says what `make_clip_mask` puts in it.
+Composed: after masking a variable with the face mask computed from the clip geometry, the value at a
+grid cell survives **iff** that cell lies within `buffer` rings (eight directions, inside the grid) of a
+cell whose polygon intersects the geometry; every other cell holds a missing value — for every
+`intersects`, every order of the spatial-index hits, every rank and dimension order of the variable. -/
+
+/-- cell `(j, i)` is selected: within `b` rings of an intersecting cell -/
+def Selected {Poly Geom : Type} (intersects : Poly → Geom → Bool) (polys : List (Option Poly)) (g : Geom)
+    (ny nx b j i : Nat) : Prop :=
+  ∃ j' i', j' < ny ∧ i' < nx ∧ j' ≤ j + b ∧ j ≤ j' + b ∧ i' ≤ i + b ∧ i ≤ i' + b ∧
+    ∃ p, polys[j' * nx + i']? = some (some p) ∧ intersects p g = true
+
+theorem clip_end_to_end [Inhabited α] {Poly Geom : Type} (intersects : Poly → Geom → Bool)
+    (polys : List (Option Poly)) (g : Geom) (ny nx : Nat) (hits : List Nat)
+    (hhits : ∀ n, n ∈ hits ↔ ∃ p, polys[n]? = some (some p) ∧ intersects p g = true)
+    (buffer : Int) (ydim xdim : String) (hne : ydim ≠ xdim)
+    (a : NArr (Option α)) (hwf : a.WF) (hy : (ydim, ny) ∈ a.dims) (hx : (xdim, nx) ∈ a.dims)
+    (e : Env) (v : String → Nat) (hv : ∀ d ∈ a.dims, e.get d.1 = some (v d.1) ∧ v d.1 < d.2) :
+    let out := (a.whereMask (maskArr ydim xdim (Clip.gridClipMask ny nx hits buffer))).get? e
+    (Selected intersects polys g ny nx buffer.toNat (v ydim) (v xdim) → out = a.get? e) ∧
+    (¬ Selected intersects polys g ny nx buffer.toNat (v ydim) (v xdim) → out = some none) := by
+  intro out
+  have hjy := hv _ hy
+  have hix := hv _ hx
+  have hmask := maskArr_get ydim xdim hne (Clip.gridClipMask ny nx hits buffer) e (v ydim) (v xdim)
+    hjy.1 hix.1 (by rw [gridClipMask_ny]; exact hjy.2) (by rw [gridClipMask_nx]; exact hix.2)
+  have hsub : ∀ d ∈ (maskArr ydim xdim (Clip.gridClipMask ny nx hits buffer)).names, d ∈ a.names := by
+    intro d hd
+    rw [maskArr_names] at hd
+    simp only [List.mem_cons, List.not_mem_nil, or_false] at hd
+    rcases hd with rfl | rfl
+    · exact List.mem_map.mpr ⟨_, hy, rfl⟩
+    · exact List.mem_map.mpr ⟨_, hx, rfl⟩
+  have hw := where_get a _ e v hwf hv hsub _ hmask
+  have hspec := Clip.get_gridClipMask ny nx hits buffer (v ydim) (v xdim)
+  simp only [hhits] at hspec
+  constructor
+  · intro hsel
+    have : (Clip.gridClipMask ny nx hits buffer).get (v ydim) (v xdim) = true :=
+      hspec.mpr ⟨hjy.2, hix.2, hsel⟩
+    show (a.whereMask _).get? e = _
+    rw [hw, this]; rfl
+  · intro hsel
+    have : (Clip.gridClipMask ny nx hits buffer).get (v ydim) (v xdim) = false := by
+      cases h : (Clip.gridClipMask ny nx hits buffer).get (v ydim) (v xdim) with
+      | false => rfl
+      | true => exact absurd (hspec.mp h).2.2 hsel
+    show (a.whereMask _).get? e = _
+    rw [hw, this]; rfl
+
+/-! non-vacuity: a 1 x 3 grid whose cell 0 alone intersects the geometry, buffer 1: cell 1 is selected
+(one ring away), cell 2 is not -/
+example : Selected (fun (p : Nat) (_ : Unit) => p == 0) [some 0, some 1, some 2] () 1 3 1 0 1 :=
+  ⟨0, 0, by decide, by decide, by decide, by decide, by decide, by decide, 0, by decide, by decide⟩
+example : ¬ Selected (fun (p : Nat) (_ : Unit) => p == 0) [some 0, some 1, some 2] () 1 3 1 0 2 := by
+  rintro ⟨j', i', hj, hi, _, _, _, h4, p, hp, hint⟩
+  have hj0 : j' = 0 := by omega
+  subst hj0
+  have hi' : i' = 1 ∨ i' = 2 := by omega
+  rcases hi' with rfl | rfl <;> simp at hp <;> subst hp <;> simp at hint
 
 /-! ### meshes: boolean row selection -/
 
